@@ -348,6 +348,11 @@ alac_writer_init (SF_PRIVATE *psf)
 			return SFE_UNIMPLEMENTED ;
 		} ;
 
+	if (psf->sf.channels > ALAC_MAX_CHANNEL_COUNT)
+	{	psf_log_printf (psf, "Error : ALAC supports at most %d channels (%d requested).\n", ALAC_MAX_CHANNEL_COUNT, psf->sf.channels) ;
+		return SFE_CHANNEL_COUNT ;
+		} ;
+
 	plac->frames_per_block = ALAC_FRAME_LENGTH ;
 
 	plac->pakt_info = alac_pakt_alloc (2000) ;
